@@ -2,10 +2,17 @@ package main
 
 // drive: executes cases against the real dynamicgo code and logs events (ndjson).
 // usage: drive <prop> key=value ...
+//
+// The parent process supervises a worker child: the library under test may crash the
+// process outright (SIGSEGV in unsafe/native code cannot be recovered), so the worker
+// marks the case it is about to run in <out>.cur; when it dies the parent logs a Crash
+// event for that case and restarts the worker after it.
 
 import (
+	"encoding/json"
 	"fmt"
 	"os"
+	"os/exec"
 	"strconv"
 	"strings"
 )
@@ -23,7 +30,10 @@ func atoi(s string) int {
 
 var mains = map[string]func(map[string]string){
 	"c01": c01Main,
+	"c04": c04Main,
 }
+
+var startAt int // first case index the worker executes
 
 func main() {
 	if len(os.Args) < 2 {
@@ -41,6 +51,55 @@ func main() {
 	if !ok {
 		die("unknown driver %q", os.Args[1])
 	}
-	f(args)
+	if args["worker"] == "1" || args["out"] == "" {
+		startAt = atoi(args["start"])
+		f(args)
+		fmt.Println("WORKER-OK")
+		return
+	}
+	// supervisor
+	os.Remove(args["out"])
+	os.Remove(args["out"] + ".cur")
+	start, crashes := 0, 0
+	for {
+		cmd := exec.Command(os.Args[0], append(append([]string{os.Args[1]}, os.Args[2:]...), "worker=1", fmt.Sprintf("start=%d", start))...)
+		outb, err := cmd.CombinedOutput()
+		if err == nil && strings.Contains(string(outb), "WORKER-OK") {
+			fmt.Print(strings.Replace(string(outb), "WORKER-OK\n", "", 1))
+			break
+		}
+		cur, rerr := os.ReadFile(args["out"] + ".cur")
+		if rerr != nil {
+			die("worker failed before its first case: %v\n%s", err, tail(string(outb), 3000))
+		}
+		var m struct {
+			I    int             `json:"i"`
+			Case json.RawMessage `json:"case"`
+		}
+		if json.Unmarshal(cur, &m) != nil || m.I < start {
+			die("worker failed and left no usable marker: %v\n%s", err, tail(string(outb), 3000))
+		}
+		crashes++
+		if crashes > 200 {
+			die("too many worker crashes")
+		}
+		fo, _ := os.OpenFile(args["out"], os.O_APPEND|os.O_CREATE|os.O_WRONLY, 0644)
+		ev, _ := json.Marshal(map[string]interface{}{"ev": "Crash", "i": m.I, "case": m.Case, "msg": tail(string(outb), 600)})
+		// make sure a partial last line does not swallow the event
+		fo.Write([]byte("\n"))
+		fo.Write(ev)
+		fo.Write([]byte("\n"))
+		fo.Close()
+		os.Remove(args["out"] + ".cur")
+		start = m.I + 1
+	}
+	fmt.Printf("crashes=%d\n", crashes)
 	fmt.Println("DRIVE-OK")
+}
+
+func tail(s string, n int) string {
+	if len(s) > n {
+		return s[len(s)-n:]
+	}
+	return s
 }
